@@ -146,7 +146,7 @@ func c09Requests(p *Program, t *T) []c09Req {
 }
 
 func runC09(e *Env) {
-	e.Rule = "registration programs (as C04) whose handlers are armed by request headers: the panicking request designates one handler (any global/group/route middleware, main handler, custom NotFound/NotAllowed handler; before or after its Next()) or the OnError handler, a panic value (string, error, int, struct) and an action before the panic (nothing, SetStatus, body write = committed, AddError); OnPanic hook absent / does nothing / status only / status+body / echoes the recovered value; history = healthy requests, the panicking one, an overlapping pair (a second request served by the same router while the first is parked inside a handler) and 3..10 further requests of all kinds on the same router (same pooled contexts). Oracle: hook present => no escape, hook ran once with the same value under CTXRecoverResult, no handler entered after the panic, writer log == C08 state machine over (ops before the panic, hook ops, end of request); hook absent => the same value propagates; always: every later request's outcome equals the outcome on a freshly built twin router. Also the in-chain recover middleware pkg/handlers.PanicsHandler: no escape, 500, healthy afterwards. Non-trivial: every history (each contains a panic); distinct by (program, plan)."
+	e.Rule = "registration programs (as C04) whose handlers are armed by request headers: the panicking request designates one handler (any global/group/route middleware, main handler, custom NotFound/NotAllowed handler; before or after its Next()) or the OnError handler, a panic value (string, error, int, struct) and an action before the panic (nothing, SetStatus, body write = committed, AddError); OnPanic hook absent / does nothing / status only / status+body / echoes the recovered value; history = healthy requests, the panicking one, an overlapping pair (a second request served by the same router while the first is parked inside a handler) and 3..10 further requests of all kinds on the same router (same pooled contexts). Oracle: hook present => no escape, hook ran once with the same value under CTXRecoverResult, no handler entered after the panic, writer log == C08 state machine over (ops before the panic, hook ops, end of request); hook absent => the same value propagates; always: every later request's outcome equals the outcome on a freshly built twin router. Also the in-chain recover middleware pkg/handlers.PanicsHandler: no escape, 500, healthy afterwards. Non-trivial: every history (each contains a panic); distinct by (program, plan). A third of the hooks serve another request on the same router before they answer (it must get its own context and behave as on a twin); a quarter of the panicking requests carry a cancelled or expired request context."
 	e.Assumptions = []string{
 		"panic values are comparable (==)",
 		"the statement's 'no later handler runs' is checked for the OnPanic hook only; PanicsHandler lets the outer loop continue by design and is only checked for containment, status and router health",
